@@ -531,6 +531,9 @@ MOTIFS = [
     [["new_space", "-", "A", []], ["new_space", "-", "B", ["A"]], ["new_space", "-", "C", ["A"]],
      ["new_cells", "B", "f", F(0, 1)], ["set_ref", "C", "f", 3], ["new_cells", "C", "g", F(2, 1, "g", "f")],
      ["set_ref", "B", "s", 4], ["new_space", "C", "s", []]],
+    # a space inheriting from the child of another space
+    [["new_space", "-", "A", []], ["new_space", "A", "X", []], ["new_cells", "A.X", "f", F(0, 1)],
+     ["set_ref", "A.X", "s", 7], ["new_space", "-", "D", ["A.X"]], ["new_cells", "D", "g", F(1, 1, "f")]],
     # chain of three spaces with overrides
     [["new_space", "-", "A", []], ["new_cells", "A", "f", F(0, 1)], ["new_cells", "A", "g", F(1, 1, "f")],
      ["new_space", "-", "B", ["A"]], ["new_space", "-", "C", ["B"]], ["set_formula", "B", "f", F(0, 2)]],
